@@ -14,7 +14,7 @@ from gen import model as M, edits as E
 from toolworld import tw
 
 PROP = "C11"
-LOCATIONS = ["main", "import", "version", "evolution", "manifest", "graph", "version_import"]
+LOCATIONS = ["main", "import", "version", "evolution", "manifest", "graph", "version_import", "deleted_file", "deleted_file"]
 
 
 def out_dirs(pkg, root="/w"):
@@ -85,6 +85,27 @@ def make_case(seed, i):
             pr = r2.choice(protos)
             pr.steps.insert(0, ("removedLater", M.Prim("int32"), False))
             files, what = M.render_tree(p2, "/w"), "previous version %s has a leading step of %s that the current version removed" % (v.dirname, pr.name)
+    elif loc == "deleted_file":
+        # a model file disappears (git checkout of another branch, an rm, a move): a type it defined is still referenced from
+        # another file.  No remaining file is changed - nothing on disk is newer than it was.
+        import re
+        mfs = sorted(p for p in valid_files if p.endswith((".yml", ".yaml")) and not p.endswith("/_package.yml"))
+        r2.shuffle(mfs)
+        for f_ in mfs:
+            names = re.findall(r"^([A-Z][A-Za-z0-9]*)(?:<[^>]*>)?:", valid_files[f_], re.M)
+            hit = None
+            for nme in names:
+                for g_ in mfs:
+                    if g_ != f_ and re.search(r"(?<![A-Za-z0-9_.])%s(?![A-Za-z0-9_])" % re.escape(nme), re.sub(r"^%s(?:<[^>]*>)?:" % re.escape(nme), "", valid_files[g_], flags=re.M)) \
+                            and g_.rsplit("/", 1)[0] == f_.rsplit("/", 1)[0]:
+                        hit = (nme, g_)
+                        break
+                if hit:
+                    break
+            if hit:
+                files = {p: c for p, c in valid_files.items() if p != f_}
+                what = "deleted %s, which defines %s, still referenced in %s" % (f_, hit[0], hit[1])
+                break
     elif loc == "graph" and pkg.imports:
         kind = r2.choice(["cycle", "ns_conflict", "missing_import"])
         files = dict(valid_files)
@@ -181,10 +202,24 @@ def run_case(sim, seed, i):
                     pre_files[pr.choice(sub) + "/local_helpers.py"] = "# not generated\n"
             desc["user_files_in_output_dirs"] = True
 
+    last_mt = {}
+
     def execute(fs, faults=None):
         init = dict(fs)
         init.update(pre_files)
-        spec = tw.oneshot_spec(init, "/w/pkg", dirs=pre_dirs, faults=faults or [])
+        # when things were last written: the model files an hour ago, the output (if any) half an hour ago by the run that
+        # generated it, and what an invalidation changed or added just now
+        mt = {}
+        for p_ in init:
+            if p_ in pre_files:
+                mt[p_] = -1800
+            elif valid_files.get(p_) != init[p_]:
+                mt[p_] = -60
+            else:
+                mt[p_] = -3600
+        last_mt.clear()
+        last_mt.update(mt)
+        spec = tw.oneshot_spec(init, "/w/pkg", dirs=pre_dirs, faults=faults or [], mtimes=mt)
         stats["runs"] += 1
         return sim.run(spec, mapseed=ms), init
 
@@ -198,18 +233,18 @@ def run_case(sim, seed, i):
         after = {p: c for p, c in tw.tree_files(res["tree"]).items() if any(p.startswith(d + "/") for d in outs)}
         if must_fail and not failed:
             return ({"class": "invalid_package_accepted", "location": desc["location"], "wrote": len(muts) > 0},
-                    dict(ctx, expect="fail"))
+                    dict(ctx, expect="fail", mtimes=dict(last_mt)))
         said_error = any(l.lstrip().startswith(("\x1b[31mERR", "ERR ", "\x1b[31mFTL", "FTL ", "\x1b[31mPNC", "PNC ")) for l in (res.get("stderr") or "").split("\n"))
         if said_error and not failed and (muts or before != after):
             # the tool itself reported an error (an ERR line of its own log) and went on to write output with exit status 0
             w = (muts[0]["op"] + " " + muts[0]["path"]) if muts else "tree differs"
             err_line = next(l for l in res["stderr"].split("\n") if "ERR" in l or "FTL" in l or "PNC" in l)
             return ({"class": "error_reported_but_output_written", "location": ctx.get("location", desc["location"]), "first": w.replace("/w/", "")[:120]},
-                    dict(ctx, expect="fail", error_line=err_line[:300]))
+                    dict(ctx, expect="fail", error_line=err_line[:300], mtimes=dict(last_mt)))
         if failed and (muts or before != after):
             w = (muts[0]["op"] + " " + muts[0]["path"]) if muts else "tree differs"
             return ({"class": "output_touched_despite_error", "location": ctx.get("location", desc["location"]), "first": w.replace("/w/", "")[:160]},
-                    dict(ctx, expect="untouched"))
+                    dict(ctx, expect="untouched", mtimes=dict(last_mt)))
         return None
 
     # (a) invalid by construction
@@ -292,7 +327,7 @@ def replay(sim, doc):
         return hit, str(viol)
     init = dict(doc["files"])
     init.update(doc.get("pre_files", {}))
-    res = sim.run(tw.oneshot_spec(init, "/w/pkg", dirs=doc.get("pre_dirs", []), faults=doc.get("faults", [])), mapseed=doc["mapseed"])
+    res = sim.run(tw.oneshot_spec(init, "/w/pkg", dirs=doc.get("pre_dirs", []), faults=doc.get("faults", []), mtimes=doc.get("mtimes") or {}), mapseed=doc["mapseed"])
     if res.get("status") == "process_died":
         return False, "process died: " + res.get("stderr_tail", "")[-300:]
     failed = res["exit_code"] != 0 or res["status"] != "returned"
